@@ -126,6 +126,10 @@ pub enum Ev {
     // termination / teardown
     Terminate(Cause),
     DropCtx,
+    /// at a quiescent point (everything settled, nothing half-written): drop the `run()` future,
+    /// keep the Context and call `run()` again - what a caller does who races `ctx.run()` against
+    /// something else in a `select!` loop. Nothing observable may change.
+    ReenterRun,
 }
 
 #[derive(Clone, Debug, PartialEq, Eq, Serialize, Deserialize, Default)]
@@ -1364,6 +1368,24 @@ impl<'a> Sim<'a> {
                 self.on_completions();
                 self.check_quiescent();
                 return;
+            }
+            Ev::ReenterRun => {
+                if self.terminated.is_some() || self.ctx_dropped || !self.w.ctx_running() {
+                    self.stats.events_skipped += 1;
+                    return;
+                }
+                self.settle();
+                self.on_completions();
+                if self.w.writer.blocked() || self.w.ctx_woken() || !self.w.ctx_running() || self.w.run_result.is_some() {
+                    self.stats.events_skipped += 1;
+                    return;
+                }
+                if self.w.cancel_run() && self.w.start_run() {
+                    self.stats.kinds.insert("run-re-entered");
+                    self.settle();
+                } else {
+                    self.fail("HARNESS/re-enter-run", "could not cancel and restart run()");
+                }
             }
             Ev::Sweep => {
                 let polls = self.w.total_polls;
